@@ -152,7 +152,7 @@ def run_table(ctx, si, overridden, rep):
         env.close()
 
 
-def run_history(ctx, steps, rep, fix=None):
+def run_history(ctx, steps, rep, fix=None, tamper='nothing'):
     """One long-lived enforcer decides a sequence of requests; between
     requests the operator may flip [oslo_policy] enforce_scope.  Every
     request must be decided by the table row of the settings in force at
@@ -163,15 +163,34 @@ def run_history(ctx, steps, rep, fix=None):
     common.register_leaves()
     env = common.PolicyEnv()
     try:
-        enf = env.enforcer(
-            defaults=[policy.RuleDefault('sys', 'sym:a',
-                                         scope_types=['system']),
-                      policy.RuleDefault('proj', 'sym:b',
-                                         scope_types=['project', 'domain']),
-                      policy.RuleDefault('any', 'sym:c')],
-            enforce_scope=True)
+        sys_types = ['system']
+        proj_types = ['project', 'domain']
+        shared = [policy.RuleDefault('sys', 'sym:a', scope_types=sys_types),
+                  policy.RuleDefault('proj', 'sym:b', scope_types=proj_types),
+                  policy.RuleDefault('any', 'sym:c')]
+        enf = env.enforcer(defaults=shared, enforce_scope=True)
+        other = env.enforcer(defaults=shared, enforce_scope=True)
         trace = []
         for i in range(steps):
+            # what happens to the caller's own objects, or to another
+            # enforcer registered from them, is none of this enforcer's
+            # business: its scope gate stays as registered
+            # (cube parameter; applied before the last request)
+            if i != steps - 1:
+                pass
+            elif tamper == 'caller-list-append':
+                sys_types.append('project')
+                proj_types.append('system')
+            elif tamper == 'caller-list-clear':
+                del sys_types[:]
+                del proj_types[:]
+            elif tamper.startswith('other-enforcer-copy'):
+                for nm in ('sys', 'proj'):
+                    lst = other.registered_rules[nm].scope_types
+                    if tamper.endswith('append'):
+                        lst.extend(['project', 'system'])
+                    else:
+                        del lst[:]
             es = bool(ctx.bool('enforce_scope%d' % i))
             enf.conf.set_override('enforce_scope', es, group='oslo_policy')
             token = ctx.choice('token%d' % i, SCOPES)
@@ -205,7 +224,8 @@ def run_history(ctx, steps, rep, fix=None):
                 except policy.PolicyNotAuthorized:
                     return ('PolicyNotAuthorized', True)
             got = ctx.summarize(call)
-            trace.append([es, str(token), str(name), do_raise])
+            trace.append([tamper if i == steps - 1 else 'nothing', es,
+                          str(token), str(name), do_raise])
             ctx.observe('got%d' % i, got)
 
             def is_(v):
@@ -232,8 +252,13 @@ def run_history(ctx, steps, rep, fix=None):
         env.close()
 
 
+TAMPER = ['nothing', 'caller-list-append', 'caller-list-clear',
+          'other-enforcer-copy-append', 'other-enforcer-copy-clear']
+
+
 def cubes_history(tier, seed):
-    out = [{'steps': 2, 'rep': r} for r in REPRS]
+    out = [{'steps': 2, 'rep': r, 'tamper': t} for r in REPRS
+           for t in TAMPER]
     if tier != 'quick':
         out += [{'steps': 3, 'rep': r, 'fix': [n, t]} for r in REPRS
                 for n in ('sys', 'proj', 'any') for t in SCOPES]
